@@ -200,6 +200,18 @@ impl AnySet {
             AnySet::Fastq(s) => s.verif_buffer(),
         }
     }
+    pub fn shrink(&mut self) {
+        match self {
+            AnySet::Fasta(s) => s.shrink_buffer_to_fit(),
+            AnySet::Fastq(s) => s.shrink_buffer_to_fit(),
+        }
+    }
+    pub fn buf_capacity(&self) -> usize {
+        match self {
+            AnySet::Fasta(s) => s.buf_capacity(),
+            AnySet::Fastq(s) => s.buf_capacity(),
+        }
+    }
 }
 
 impl AnyReader {
